@@ -96,6 +96,10 @@ def main(tier, seed):
             texts.append(SP.spell(spec, r2, {'varied': True})[0])
     texts += ['', 'Table é {\n "日本" int [note: \'ü😀\']\n}\n', 'Table t {\n id int\n', 'Table t {\n id int [k: \'v\']\n}\n',
               'Table t {\r\n id int\r\n}\r\n',
+              # Windows line ends INSIDE texts the parser keeps (multi-line notes, comments, a lone CR): every route sees the same characters
+              "Table t {\r\n  id int [note: '''line one\r\nline two''']\r\n  Note: '''first\r\nsecond'''\r\n}\r\n",
+              '// a comment\r\n/* block\r\ncomment */\r\nTable t {\r\n  id int // trailing\r\n}\r\n',
+              "Note n {\n  '''a\rb'''\n}\nTable t {\n  id int\n}\n",
               # the text must arrive untouched on every route: no Unicode normalisation, case folding or character mapping
               'Table "cafe\u0301" {\n "e\u0301" int [note: \'A\u030a \u212b \ufb01 \uff21 \u1e9e \u0130 \u017f\']\n}\nNote n {\n \'x\u0301 \u00a0 \u200d \u00ad\'\n}\n',
               'Enum "\u2126" {\n "\u03a9"\n "K"\n "\u212a"\n}\nTable t {\n c "\u2126"\n d "\u03a9"\n}\n',
